@@ -8,3 +8,4 @@ CONSTANTS
   FAULTS = 2
   FLAGFIRST = FALSE
   DELAYMS = 120
+  SKIPREDUNDANT = FALSE
